@@ -164,6 +164,14 @@ def check(ctx, rule):
         and len(unp) >= 1 and all(any(k.arg == "raw" and ast.unparse(k.value) == "False" for k in u.keywords) for u in unp)
     ctx.ob(f"{rule}.msgpack-types", BCIF, "BinaryCIFFile", "packb(use_bin_type=True) / unpackb(raw=False)", okp,
            "bytes and str must stay distinguishable on the wire (data are bytes, keys and kinds are str)", fl["write"].lineno)
+    # the packer's options are the lossless ones: nothing that narrows a value on its way into the file (use_single_float writes
+    # the float parameters of FixedPoint / IntervalQuantization encodings as binary32)
+    LOSSLESS_PACK = {"use_bin_type": ("True",), "default": None, "strict_types": None, "unicode_errors": None, "datetime": ("False",)}
+    for c_ in packs:
+        bad = [k.arg for k in c_.keywords if k.arg not in LOSSLESS_PACK or (LOSSLESS_PACK[k.arg] is not None and ast.unparse(k.value) not in LOSSLESS_PACK[k.arg])]
+        ctx.ob(f"{rule}.msgpack-lossless", BCIF, "BinaryCIFFile.write", "packb options " + str(sorted(k.arg or "**" for k in c_.keywords)), not bad,
+               f"packer option {bad[0] if bad else ''} changes values on their way into the file (floats are narrowed to binary32 by use_single_float)",
+               c_.lineno)
     okr = all(call_name(p) in ("BinaryCIFFile.deserialize", "cls.deserialize") for p in [c for c in calls(fl["read"]) if any(u is a for u in unp for a in c.args)])
     ctx.ob(f"{rule}.read-deserialises", BCIF, "BinaryCIFFile.read", "BinaryCIFFile.deserialize(msgpack.unpackb(...))", okr and bool(unp),
            "read() builds the file from the unpacked content", fl["read"].lineno)
